@@ -155,12 +155,12 @@ impl ZipIntVec {
         let &max_val = src.iter().max().unwrap();
 
         if min_val == max_val {
-            // All values are the same
-            let mut vec = Self::new(src.len(), min_val, min_val + 1);
-            for i in 0..src.len() {
-                vec.set(i, min_val);
-            }
-            return vec;
+            // All values are the same: one bit per value, every offset zero
+            // (built directly: `min_val + 1` is not representable when min_val == usize::MAX)
+            return Self {
+                inner: UintVecMin0::new(src.len(), 1),
+                min_val,
+            };
         }
 
         let mut vec = Self::new(src.len(), min_val, max_val);
@@ -182,12 +182,12 @@ impl ZipIntVec {
         let &max_val = src.iter().max().unwrap();
 
         if min_val == max_val {
-            // All values are the same
-            let mut vec = Self::new(src.len(), min_val as usize, (min_val + 1) as usize);
-            for i in 0..src.len() {
-                vec.set(i, min_val as usize);
-            }
-            return vec;
+            // All values are the same: one bit per value, every offset zero
+            // (built directly: `min_val + 1` overflows u32 when min_val == u32::MAX)
+            return Self {
+                inner: UintVecMin0::new(src.len(), 1),
+                min_val: min_val as usize,
+            };
         }
 
         let mut vec = Self::new(src.len(), min_val as usize, max_val as usize);
